@@ -140,7 +140,14 @@ def run(ctx):
         if not exact_terms_ok(a) or not exact_terms_ok(b): continue
         add('interaction_op', '(fermi_equiv %s %s)' % (coq_fop_terms(a), coq_fop_terms(b)),
             {'call': 'normal_ordered(InteractionOperator)', 'one_body': repr(one.tolist()), 'two_body_nonzero': {repr(k): repr(two[k]) for k in zip(*np.nonzero(two))}}, key=repr(a))
-        fop = mk_fermion(of, {t: c for t, c in a.items()})
+        its = list(a.items())
+        if i % 2: rng.shuffle(its)                      # dictionary order: two-body terms may precede one-body terms
+        if i % 4 == 1 and n >= 3:
+            # a two-body term with coinciding inner indices (it generates p^ s) followed by an explicit p^ s term
+            p_, q_, s_ = rng.sample(range(n), 3)
+            its = [(((p_, 1), (q_, 1), (q_, 0), (s_, 0)), dyc(rng))] + [x for x in its if x[0] not in (((p_, 1), (q_, 1), (q_, 0), (s_, 0)), ((p_, 1), (s_, 0)))] + [(((p_, 1), (s_, 0)), dyc(rng))]
+        fop = of.FermionOperator()
+        for t_, c_ in its: fop.terms[t_] = c_
         try:
             ch = of.chemist_ordered(fop)
             if exact_terms_ok(ch.terms):
